@@ -81,6 +81,39 @@ def ints_ok(v):
     return all(ints_ok(x) for x in v)
 
 
+def depth(v):
+    d, stack = 0, [(v, 1)]
+    while stack:
+        x, k = stack.pop()
+        if isinstance(x, dict):
+            x = list(x.values())
+        if isinstance(x, (list, tuple)):
+            d = max(d, k)
+            stack += [(y, k + 1) for y in x]
+    return d
+
+
+def nest(n, leaf=1):
+    v = leaf
+    for _ in range(n):
+        v = [v]
+    return v
+
+
+def encodable(v):
+    """Inside orjson's domain as the model has it: 64-bit integers, at most 254 levels of nesting."""
+    return ints_ok(v) and depth(v) <= 254
+
+
+def op_json_values(op):
+    k = op[0]
+    if k in ("put_json", "post_json"):
+        return [op[2]]
+    if k == "put_characteristics":
+        return [{"characteristics": [{"aid": a, "iid": i, "value": v} for a, i, v in op[1]]}]
+    return []
+
+
 def gen_str(r):
     n = r.choice([0, 1, 1, 2, 3, 5])
     return "".join(r.choice(STR_ATOMS + [chr(r.randrange(0x20, 0x7f)), chr(r.randrange(0, 0x20))]) for _ in range(n))
@@ -503,6 +536,8 @@ async def run_scenario(sc, acc_doc):
                 caps = seams.captured[n0:]
                 n0 = len(seams.captured)
                 rec = dict(op=eff, asked=asked, outcome=outcome, requests=caps, **base)
+                if not all(encodable(x) for x in op_json_values(eff)):
+                    rec["expect_encode_error"] = True      # orjson refuses: the call must raise and write nothing
                 if held is not None:
                     rec["held"] = "%s %s kept by the caller and updated in place between calls" % (type(held).__name__, op[2])
                     rec["arg_after"] = repr(list(held))[:300]
@@ -851,6 +886,17 @@ def gen_scenarios(tier, r):
     scs += gen_pollers(tier, r)
     scs += gen_concurrent(tier, r)
     scs += gen_misc_entry(tier, r)
+    # payloads the JSON encoder refuses, given to the API on a live object: must raise, nothing written; the next call is fine
+    for hk, host in (HOSTS[0], HOSTS[5]):
+        scs.append(single("secure", host, 5001, [
+            ("list_accessories",), ("put_characteristics", [(1, 9, 2 ** 64)]), ("put_characteristics", [(1, 9, "ok")]),
+            ("put_characteristics", [(1, 9, 1), (2, 10, -2 ** 63 - 1)]), ("put_json", "/characteristics", {"value": [2 ** 64, "a b"]}),
+            ("put_characteristics", [(1, 9, nest(255))]), ("put_characteristics", [(1, 9, nest(252))]),
+            ("put_characteristics", [(1, 9, nest(251))]),
+            ("get_characteristics", [(1, 9)], list)]))
+        scs.append(single("plain", host, 5001, [
+            ("put_json", "/characteristics", {"characteristics": [{"aid": 1, "iid": 9, "value": 2 ** 64}]}),
+            ("post_json", "/identify", nest(300)), ("put_json", "/characteristics", {"a": 1})]))
     n = 220 if tier == "quick" else 4500
     for i in range(n):
         hk, host = r.choice(HOSTS)
@@ -1272,7 +1318,14 @@ def run(ctx):
                     add(f"written-while-disconnected:{api}", f"{api}: a request was written although the connection was lost and "
                         f"no address is reachable", True, **replay(sc, rec))
                 continue
-            if rec["outcome"] != "ok":
+            if rec.get("expect_encode_error") and not exs:
+                # a payload the JSON encoder refuses (model: dump_bytes = Err): the call raises, nothing is written
+                if rec["outcome"] != "exc:TypeError":
+                    add(f"unencodable-payload:{api}:{rec['outcome']}", f"{api} with a payload outside the encoder's domain ended "
+                        f"with {rec['outcome']}, expected TypeError and nothing written", False, **replay(sc, rec))
+                cov.case("x" + repr(rec["op"])[:200], True, req_api=api + ":unencodable", req_mode=sc["mode"])
+                continue
+            if rec["outcome"] != "ok" and not rec.get("expect_encode_error"):
                 add(f"op-failed:{api}:{rec['outcome']}", f"{api} on the in-memory accessory ended with {rec['outcome']} "
                     f"(expected a normal return)", False, **replay(sc, rec))
             if api == "gather":
@@ -1309,6 +1362,8 @@ def run(ctx):
                     asked_why = [None] * len(exs)
                 else:
                     asked_why = [same_asked(a, ex) for a, ex in zip(asked, exs)]
+                    if rec.get("expect_encode_error"):
+                        asked_why = [None] * len(exs)      # something WAS written: its form is judged by the oracle below
             for qi, (cap, ex) in enumerate(zip(rec["requests"], exs)):
                 n_req += 1
                 peer = cap.host or rec["host"]
@@ -1481,19 +1536,21 @@ def run(ctx):
             add("json:model-scan", "model: scan Out (jprint v) <> Some Out (theorem jprint_no_ws contradicted?)", False,
                 value=repr(v)[:300], model=a[:300])
         orc = None
-        if ints_ok(v):
-            if impl.startswith("ok "):
-                b = unhx(impl[3:])
-                if G.json_ws_outside_strings(b):
-                    orc = "json-whitespace"
-                elif G.ref_compact(v) != b:
-                    orc = "json-noncanonical"
-            else:
-                orc = "json-encode-failed"
-        elif impl != "err":
-            orc = None   # outside orjson's integer domain the property says nothing
+        in_dom = ints_ok(v)
+        if impl.startswith("ok "):
+            # whatever the encoder returns becomes a request body: it must be the compact form, also for a payload
+            # outside orjson's 64-bit integer domain (there the unchanged encoder raises and nothing is sent)
+            b = unhx(impl[3:])
+            if G.json_ws_outside_strings(b):
+                orc = "json-whitespace"
+            elif G.ref_compact(v) != b:
+                orc = "json-noncanonical"
+        elif in_dom:
+            orc = "json-encode-failed"
         if orc:
-            add(f"noncanonical:{orc}:dump_bytes", f"hkjson.dump_bytes output is not the compact form ({orc})", True,
+            add(f"noncanonical:{orc}:dump_bytes" + ("" if in_dom else ":outside-orjson-domain"),
+                f"hkjson.dump_bytes output is not the compact form ({orc})"
+                + ("" if in_dom else " for a payload orjson itself refuses (integer beyond 64 bits)"), True,
                 stream="json", value=repr(v)[:500], value_json=enc(v), impl=impl[:600], expected=hx(G.ref_compact(v))[:600])
         elif impl != model:
             add("json:model-mismatch", "hkjson.dump_bytes differs from the model jprint/dump_bytes", False,
@@ -1502,6 +1559,27 @@ def run(ctx):
         cov.case("j" + repr(v), isinstance(v, (str, list, dict)),
                  sample=dict(stream="json", value=repr(v)[:200], impl=impl[:200]) if idx % 499 == 7 else None,
                  json_type=type(v).__name__, json_result=impl.split(" ")[0])
+
+    # ---- payloads outside the MODEL's domain (floats, NaN, non-string keys, > 254 levels, integer keys beyond 64 bits):
+    # no model answer, but the property's rule is independent of it: a returned body has no whitespace outside strings
+    if "json" in streams and rp is None:
+        extra = [nest(255), nest(256, "a b"), nest(400), {"value": nest(260, {"k": [1, 2]})}, {"characteristics": [{"aid": 1, "iid": 9, "value": nest(255)}]},
+                 1.5, -0.0, 1e300, float("nan"), float("inf"), [1.5, "a b"], {"v": float("nan"), "w": [1, 2]},
+                 {1: 2, 3: [4, 5]}, {None: 1, True: [2, 3]}, {1.5: "x y", "k": [1, 2]}, {2 ** 64: [1, 2]}, {-2 ** 63 - 1: {"a": 1}},
+                 (1, 2, (3, 4)), {"t": (1, 2)}, [2 ** 64, "a b", {"k": [1, 2]}], {"value": 2 ** 64, "aid": 1, "iid": 9},
+                 {"characteristics": [{"aid": 1, "iid": 9, "value": -2 ** 63 - 1}]}]
+        for v in extra:
+            try:
+                out = bytes(hkjson.dump_bytes(v))
+                impl = "ok " + hx(out)
+            except Exception as e:  # noqa
+                out, impl = None, "err:" + type(e).__name__
+            if out is not None and G.json_ws_outside_strings(out):
+                add("noncanonical:json-whitespace:dump_bytes:outside-model-domain",
+                    "hkjson.dump_bytes returned a body with whitespace outside string literals (payload outside the modelled "
+                    "domain: float / non-string key / > 254 levels / integer key beyond 64 bits)", True,
+                    stream="json", value=repr(v)[:500], impl=out[:300].decode("latin1"))
+            cov.case("J" + repr(v)[:300], True, json_type="outside-model:" + type(v).__name__, json_result=impl.split(" ")[0])
 
     # ================================================================ mut stream (grammar vs grammar)
     r = rng(seed, "c09mut")
